@@ -1,22 +1,20 @@
-(* C13 — etl::fmod / etl::remainder: the constant-evaluation fallback of BOTH is gcem::fmod
-   (x - trunc(x/y)*y with a rounded quotient), at run time the exact builtins.  Recorded findings
-   KF-C13-fmod-ct-gcem and KF-C13-remainder-ct-is-fmod; witnesses by evaluation. *)
+(* C13 — etl::fmod / etl::remainder: the constant-evaluation path (gcem fmod_exact: binary long
+   division, since the fix: commits 57a95a0 / 3d5fc50) against the exact C / IEC 60559 operations the
+   run-time builtins compute.  Sanity evaluations of the former defect witnesses (before the fix:
+   fmod(1e10f, 3.0f) was 0, remainder(5.0f, 3.0f) was 2, fmod(5.0f, inf) was NaN in constant
+   evaluation) and of the inexact halving of an odd subnormal. *)
 From Tetl Require Import Lib.Base C13.Float C13.Model C13.Spec.
 Local Open Scope Z_scope.
 
 Definition f32 (bits : Z) : fval := decode binary32 bits.
 
-(* fmod(1e10f, 3.0f): 0 in constant evaluation (the quotient 3333333333.33 rounds to a float whose
-   product with 3 rounds back to 1e10f), exactly 1 at run time;
-   remainder(5.0f, 3.0f): 2 in constant evaluation (truncated quotient), -1 at run time;
-   fmod(5.0f, inf): NaN in constant evaluation, 5 at run time *)
-Lemma fmod_remainder_refuted :
-  (valid binary32 (f32 1343554297) = true /\ valid binary32 (f32 1077936128) = true /\
-   ct_fmod binary32 (f32 1343554297) (f32 1077936128) = Ok (FZero false) /\
+Lemma fmod_remainder_witnesses :
+  (ct_fmod binary32 (f32 1343554297) (f32 1077936128) = Ok (rt_fmod (f32 1343554297) (f32 1077936128)) /\
    rt_fmod (f32 1343554297) (f32 1077936128) = FFin false 1 0) /\
-  (valid binary32 (f32 1084227584) = true /\
-   ct_remainder binary32 (f32 1084227584) (f32 1077936128) = Ok (FFin false 1 1) /\
+  (ct_remainder binary32 (f32 1084227584) (f32 1077936128) = Ok (rt_remainder (f32 1084227584) (f32 1077936128)) /\
    rt_remainder (f32 1084227584) (f32 1077936128) = FFin true 1 0) /\
-  (ct_fmod binary32 (f32 1084227584) (FInf false) = Ok qnan /\
-   rt_fmod (f32 1084227584) (FInf false) = f32 1084227584).
+  (ct_fmod binary32 (f32 1084227584) (FInf false) = Ok (f32 1084227584)) /\
+  (* 3 * denorm_min against denorm_min and 2 * denorm_min *)
+  (ct_fmod binary32 (f32 3) (f32 1) = Ok (FZero false) /\ ct_remainder binary32 (f32 3) (f32 2) = Ok (FFin true 1 (-149)) /\
+   rt_remainder (f32 3) (f32 2) = FFin true 1 (-149)).
 Proof. repeat split; vm_compute; reflexivity. Qed.
